@@ -119,6 +119,11 @@ def case_args(c, o):
 def model_term(c, o):
     if o is None or "panic" in o or "error" in o:
         return "false"
+    if c.get("cfg", {}).get("chan_cap"):
+        # small, lazily drained command channel: senders wait for capacity, so the real interleaving is a
+        # schedule the harness cannot name task by task; these histories are judged by the oracle alone
+        # (the model's channel is unbounded and never drops: its theorems cover every such schedule)
+        return None
     if c.get("kind") == "header":
         return "agree_header %s %s" % (clist(str(b) for b in c["bytes"]), copt(o["kind"], str))
     return "agree_case %s %s %d %d %s %s %s %s %s" % (
@@ -333,7 +338,10 @@ class Trace:
             self.removed(op["k"], pre)
         elif name == "deliver":
             j = op["j"]
-            if j < len(pre["chan"]):
+            if isinstance(out, dict) and "delivered" in out:
+                if out["delivered"] is not None:
+                    self.deliver_one(out["delivered"], pre)
+            elif j < len(pre["chan"]):
                 self.deliver_one(pre["chan"][j], pre)
         elif name == "cleanup":
             for e in pre_idx - post_idx:
@@ -379,7 +387,7 @@ class Trace:
 
 
 def settled(d):
-    return d["ntasks"] == 0 and not d["chan"]
+    return d["ntasks"] == 0 and not d["chan"] and d.get("chan_count", 0) == 0
 
 
 def oracle(c, o):
@@ -484,6 +492,29 @@ def gen(ctx):
     for i in range(20 if quick else 300):
         cases.append(gen_history(rng, rng.choice([10, 20, 30]), caps=(1, 2, 2, 3),
                                  weights=dict(put=40, remove=20, step=25, deliver=8, settle=2), tag="relist-directed"))
+    # a SMALL command channel (capacity 1-3) that the driver drains late: more write completions than free
+    # slots; nothing may be lost (the senders wait): once settled every accepted write is listed and readable,
+    # also after it has left the 1-2 entry read cache
+    for i in range(40 if quick else 800):
+        nk = rng.randrange(4, 10)
+        keys = gen_keys(rng, nk, False)
+        vals = [bytes([0x91, rng.choice(KINDS_STORED)]) + bytes(rng.getrandbits(8) for _ in range(rng.choice([1, 5, 30]))) for _ in range(4)]
+        ops = []
+        for burst in range(rng.randrange(1, 4)):
+            ks = rng.sample(range(nk), rng.randrange(2, nk + 1))
+            for k in ks:
+                v = rng.randrange(4)
+                ops.append({"op": "put", "k": k, "v": v, "t": type_for(rng, vals[v], False)})
+            ops += [{"op": "step"}] * rng.choice([len(ks), 2 * len(ks), 3 * len(ks) + 2])
+            ops += [{"op": "deliver", "j": 0}] * rng.randrange(0, 3)
+            ops += [{"op": "step"}] * rng.randrange(0, 4)
+            if rng.random() < 0.3:
+                ops.append({"op": "remove", "k": rng.choice(ks)})
+        ops.append({"op": "settle"})
+        ops += [{"op": "get", "k": k} for k in range(nk)]
+        cc = mk_case(rng, keys, vals, ops, 16384, rng.choice([1, 2, 2, 25]), "small-channel")
+        cc["cfg"]["chan_cap"] = rng.choice([1, 1, 2, 3])
+        cases.append(cc)
     cases += header_cases(rng, 400 if quick else 3000)
     if not quick:
         cases += exhaustive_two_key(ctx)
